@@ -7,6 +7,9 @@ import atexit, json, os, re, shutil, subprocess, sys, tempfile, time
 VERIF = os.path.dirname(os.path.dirname(os.path.abspath(__file__)))
 REPO = os.environ.get("VERIF_REPO", "/repo")
 CORES = os.cpu_count() or 4
+# runs against a scratch copy of the repository (mutation self-tests) keep their evidence and replay
+# files out of /verif
+OUTDIR = VERIF if not os.environ.get("VERIF_NO_EVIDENCE") else os.path.join("/var/tmp", "verif-selftest-out")
 
 
 class Infra(Exception):
@@ -107,7 +110,7 @@ def run_tlc_with_files(module_dir, module, cfg, files, **kw):
     out = os.path.join(work, "tlc.out")
     timeout = kw.get("timeout", 900)
     cmd = ["timeout", str(timeout), "tlc", "-workers", str(kw.get("workers", 1)), "-metadir", os.path.join(work, "meta"),
-           "-config", cfg, module + ".tla"]
+           "-config", cfg, *kw.get("extra", ()), module + ".tla"]
     t0 = time.time()
     with open(out, "w") as fh:
         p = subprocess.run(cmd, cwd=work, stdout=fh, stderr=subprocess.STDOUT)
@@ -198,24 +201,24 @@ class Report:
         """Record a violation; the first MAX_REPLAYS get a replay file of their own, the rest
         share the last one (their stimuli are appended to it) so that a systematic defect does
         not write thousands of files."""
-        os.makedirs(os.path.join(VERIF, "replays"), exist_ok=True)
+        os.makedirs(os.path.join(OUTDIR, "replays"), exist_ok=True)
         n = len(self.violations) + 1
         if n <= self.MAX_REPLAYS:
-            path = os.path.join(VERIF, "replays", f"{self.prop}-{self.seed}-{n}.json")
+            path = os.path.join(OUTDIR, "replays", f"{self.prop}-{self.seed}-{n}.json")
             with open(path, "w") as fh:
                 json.dump(payload, fh, indent=1)
         else:
-            path = os.path.join(VERIF, "replays", f"{self.prop}-{self.seed}-more.ndjson")
+            path = os.path.join(OUTDIR, "replays", f"{self.prop}-{self.seed}-more.ndjson")
             with open(path, "a") as fh:
                 fh.write(json.dumps(payload, separators=(",", ":")) + "\n")
         self.violations.append((path, text))
 
     def finish(self):
-        os.makedirs(os.path.join(VERIF, "evidence"), exist_ok=True)
+        os.makedirs(os.path.join(OUTDIR, "evidence"), exist_ok=True)
         ev = {"property_id": self.prop, "tier": self.tier, "seed": self.seed, "level": self.level,
               "coverage": self.cov, "assumptions": self.assumptions, "wall_s": round(time.time() - self.t0, 2),
               "violations": len(self.violations)}
-        with open(os.path.join(VERIF, "evidence", self.prop + ".json"), "w") as fh:
+        with open(os.path.join(OUTDIR, "evidence", self.prop + ".json"), "w") as fh:
             json.dump(ev, fh, indent=1)
         for k in self.known:
             print(f"KNOWN-FINDING: property={self.prop} {k}")
